@@ -248,7 +248,7 @@ def run(run, tier, replay=None):
     run.extra["instances_generated_as_valid"] = sum(1 for _, c in meta if c["valid_gen"])
     def lossless(c):
         r = c["res"]
-        return ("dec_exc" not in r and "enc_exc" not in r and r.get("py_equal") and r.get("dumps_ok") and r.get("redecode_equal") and not c.get("nonjson"))
+        return ("dec_exc" not in r and "enc_exc" not in r and r.get("py_equal") and r.get("dumps_ok") and r.get("redecode_equal") and not r.get("input_mutated") and r.get("decode_twice_equal", True) and not c.get("nonjson"))
     # failing, generated-as-valid, outside the guard: is it the schema (static guard false) or only the instance?
     cand = [i for i, (di, c) in enumerate(meta) if not lossless(c) and i in outside and c["valid_gen"]]
     sterms = []
